@@ -707,6 +707,27 @@ def nearbyint_as_int_spec(ty, cfg, n, args, ev):
     return True, label, 'P', ''
 
 
+def s_nearbyint_as_int_spec(ty, cfg, n, args, ev):
+    """scalar overload (C17): the same forms as one lane of the batch kernel -- (integer of the same width) nearbyint(x)"""
+    from . import specs as S_
+    D = _TYS['i32' if ty.bits == 32 else 'i64']
+    label = 'scalar nearbyint_as_int(x) = (%s) nearbyint(x), the form the batch kernels are matched against' % D.c
+    x = args[0][0]
+    ret = ev.ret
+    if ret is None or isinstance(ret, (lanes.Ptr, dict)):
+        return False, label, 'P', 'no integer result'
+    cg = T.canon(T.slice_(ret, 0, D.bits))
+    alts = []
+    if ty.bits == 32:
+        alts.append(T.raw_op('x86.cvtps2dq', 32, x))
+    for (lab, k_, r) in S_.rounding('nearbyint')(ty, x):
+        if k_ == 'P':
+            alts.append(T.raw_op('fptosi', D.bits, r, attrs=ty.bits))
+    if not any(T.canon(w_) == cg for w_ in alts):
+        return False, label, 'P', 'result is %s, expected e.g. %s' % (T.fmt(cg, 5)[:300], T.fmt(alts[-1], 4)[:160])
+    return True, label, 'P', ''
+
+
 def bitwise_cast_spec(ty, cfg, n, args, ev, To):
     label = 'bitwise_cast: the result register holds exactly the source register\'s bytes'
     ret = ev.ret
